@@ -40,7 +40,9 @@ for name, pkgdir in sorted(items.items()):
     else:
         r = subprocess.run(["/verif/tools/verify_negative.sh", prop, dst, pkgdir], capture_output=True, text=True)
         line = (r.stdout.strip().splitlines() or ["?"])[-1]
-        ok = all(s in line for s in ("keep_clean=PASS", "apply=ok", "build=ok", "keep_patched=PASS", "suite=PASS"))
+        has_keep = any(f.endswith("_test.go") for f in os.listdir(dst))
+        need = ("keep_clean=PASS", "apply=ok", "build=ok", "keep_patched=PASS", "suite=PASS") if has_keep else ("apply=ok", "build=ok", "suite=PASS")
+        ok = all(s in line for s in need)
         print(line)
         if not ok:
             print(f"  -> {prop}-{tag}{name} NOT kept"); continue
